@@ -9,6 +9,7 @@
 #
 import math
 from decimal import Decimal
+from contextlib import nullcontext
 from functools import cmp_to_key
 from itertools import zip_longest
 from typing import Any, Optional
@@ -26,7 +27,8 @@ from elementpath.xpath_tokens import XPathToken, XPathFunction, XPathMap, XPathA
 def deep_equal(seq1: Iterable[Any],
                seq2: Iterable[Any],
                collation: Optional[str] = None,
-               token: Optional[XPathToken] = None) -> bool:
+               token: Optional[XPathToken] = None,
+               manager: Optional[CollationManager] = None) -> bool:
 
     etree_node_types = (EtreeElementNode, CommentNode, ProcessingInstructionNode)
 
@@ -55,7 +57,8 @@ def deep_equal(seq1: Iterable[Any],
     if collation is None:
         collation = UNICODE_CODEPOINT_COLLATION
 
-    with CollationManager(collation, token=token) as cm:
+    # a nested call (members of maps and arrays) reuses the collation manager already entered
+    with nullcontext(manager) if manager else CollationManager(collation, token=token) as cm:
         for value1, value2 in zip_longest(seq1, seq2):
             if isinstance(value1, XPathFunction) and \
                     not isinstance(value1, (XPathMap, XPathArray)):
@@ -71,12 +74,21 @@ def deep_equal(seq1: Iterable[Any],
                 return False
             elif value1 is None:
                 return True
-            elif isinstance(value1, XPathMap):
-                assert isinstance(value2, XPathMap)
-                return value1 == value2
-            elif isinstance(value1, XPathArray):
-                assert isinstance(value2, XPathArray)
-                return value1 == value2
+            elif isinstance(value1, (XPathMap, XPathArray)):
+                if value1.__class__ is not value2.__class__ or len(value1) != len(value2):
+                    return False
+                elif isinstance(value1, XPathArray):
+                    pairs = list(zip(value1.items(), value2.items()))
+                elif any(k not in value2.keys() for k in value1.keys()):
+                    return False
+                else:
+                    pairs = [(v, value2(k)) for k, v in value1.items()]
+                for v1, v2 in pairs:  # members are sequences: compare them with the same rules
+                    if not deep_equal(v1 if isinstance(v1, list) else [v1],
+                                      v2 if isinstance(v2, list) else [v2], collation, token, cm):
+                        return False
+            elif isinstance(value2, (XPathMap, XPathArray)):
+                return False
             elif isinstance(value1, XPathNode):
                 assert isinstance(value2, XPathNode)
                 if value1.__class__ != value2.__class__:
